@@ -466,6 +466,11 @@ def obligations(tier, seed):
                 ab = (model, T, "serial", hb, tb) + ((grid,) if grid else ())
                 au = (model, T, "serial", (), ()) + ((grid,) if grid else ())
                 add("C10.coalescent.%s[hbatch=%s,tbatch=%s]" % (model, hb, tb), "C08", "scn_coalescent", ab, au, "log_prob_is_kingman", b)
+    # rescaled pruning functions (tip partials and tip states), sample shape equal / unequal to the number of rate categories
+    for b in [(2,), (3,)]:
+        add("C10.likelihood.rescaled[partials,K=2,batch=%s]" % (b,), "C03", "scn_rescaled", ("partials", "((0,1),2)", 2, 2, b, 1), ("partials", "((0,1),2)", 2, 2, (), 1), "rescaled_equals_plain", b)
+        add("C10.likelihood.rescaled[states,K=2,batch=%s]" % (b,), "C03", "scn_rescaled", ("states", "((0,1),2)", 2, 2, b, [[0, 1], [1, 2], [0, 0]]),
+            ("states", "((0,1),2)", 2, 2, (), [[0, 1], [1, 2], [0, 0]]), "rescaled_equals_plain", b)
     # birth-death skyline: parameters and/or node heights batched
     for b in [(2,), (3,)]:
         for pb, hb in ((b, ()), ((), b), (b, b)):
